@@ -465,6 +465,13 @@ v('C20', 'vars-copied', 'c20.same-map', (P, '''		query.options.vars = vars''', '
 		}'''))
 # ---- C07
 v('C07', 'subquery-over-document', 'c07.scope-arg', (P, 'subQuery, err := Prepare(current, expr.Select, query.options)', 'subQuery, err := Prepare(query.data, expr.Select, query.options)'))
+v('C07', 'exists-chaining-goroutine-waits-for-the-wrong-group', 'c07.nested-discipline', (P, '''	go func() {
+		q.wg.Wait()
+		query.wg.Done()
+	}()''', '''	go func() {
+		query.wg.Wait()
+		q.wg.Done()
+	}()'''))
 v('C07', 'exists-always-true', 'c07.scope-arg', (P, 'return len(array) > 0, nil', 'return len(array) >= 0, nil'))
 v('C07', 'cte-stored-under-other-key', 'c07.cte-memo', (P, '''			data[copy.ID.String()] = CteEvaluation(func() (any, error) {
 				return rs, nil
